@@ -3,9 +3,6 @@
    lemma phrased against the Spec. *)
 From Resolvo Require Export Spec.Ref.
 
-Definition exempt (P : problem) (S : list N) : list N :=
-  filter (fun s => memN s S) (pr_soft P).
-
 Definition o_valid (u : universe) (P : problem) (S : list N) : bool :=
   validb (table_provider u) P S (exempt P S).
 
